@@ -79,6 +79,10 @@ def prop(r):
         with time_limit(10):
             run_pass(mod, "accfg-trace-states")
             mod.verify()
+            if r.get("retrace"):
+                # fully threaded input (loops carrying the state, conditionals yielding it): tracing it again must stay sound
+                run_pass(mod, "accfg-trace-states")
+                mod.verify()
             if r.get("post") == "dedup":
                 # same analysis, exercised on the partial setups / hoisted setups that accfg-dedup leaves behind
                 run_pass(mod, "accfg-dedup", hoist=r.get("hoist", True))
@@ -155,6 +159,8 @@ def prop(r):
     cls = sorted(built.features) + sorted(trips_seen) + [k for k, v in seen.items() if v] + ["post:" + r.get("post", "trace")]
     if n_pre:
         cls.append("prethreaded")
+    if r.get("retrace"):
+        cls.append("traced-twice")
     nontrivial = bool(seen["loop_head_iter2"] or seen["after_for"] or seen["after_if"])
     return Info(nontrivial=nontrivial, classes=tuple(cls), evals=n_exec, sample=dict(after=to_text(mod)))
 
@@ -165,6 +171,7 @@ def strat(draw, tier):
     r["post"] = draw(st.sampled_from(["trace", "dedup", "dedup"]))
     r["hoist"] = draw(st.booleans())
     r["prethread"] = draw(st.lists(st.booleans(), min_size=0, max_size=4))
+    r["retrace"] = draw(st.integers(0, 3)) == 0
     return r
 
 
